@@ -556,6 +556,34 @@ pub mod log {
 #[cfg(feature = "public_auditing")]
 pub mod local_auditing;
 
+/// Scheduling points for external verification harnesses. Only compiled with the `verif_hooks`
+/// feature; without an installed callback a pause point returns immediately.
+#[cfg(feature = "verif_hooks")]
+pub mod verif_hooks {
+    use std::future::Future;
+    use std::pin::Pin;
+    use std::sync::{Arc, RwLock};
+
+    /// Callback invoked at every pause point with the name of the point
+    pub type PauseFn =
+        Arc<dyn Fn(&'static str) -> Pin<Box<dyn Future<Output = ()> + Send>> + Send + Sync>;
+
+    static PAUSE: RwLock<Option<PauseFn>> = RwLock::new(None);
+
+    /// Install (or remove) the process-wide pause callback
+    pub fn set_pause(f: Option<PauseFn>) {
+        *PAUSE.write().unwrap() = f;
+    }
+
+    /// A named point at which a harness may suspend the calling task
+    pub async fn pause(point: &'static str) {
+        let f = PAUSE.read().unwrap().clone();
+        if let Some(f) = f {
+            f(point).await;
+        }
+    }
+}
+
 pub use akd_core::{
     configuration, configuration::*, ecvrf, hash, hash::Digest, proto, types::*, verify,
     verify::history::HistoryParams, ARITY,
